@@ -6,6 +6,7 @@ TLC-generated call sequences replayed through libovni with drivers/rtdrive,
 the recorded executions validated by RtStreamTrace.tla; for C02 the
 directories are also fed to `ovniemu -l`.
 """
+import itertools
 import json
 import os
 import random
@@ -110,12 +111,17 @@ def compose(ops, protocol=True, mt=None):
     return lines, recs, table, False
 
 
-def run_script(drv, bdir, ops, want_emu, keep=None, shim=None, tmpdir=False):
+def run_script(drv, bdir, ops, want_emu, keep=None, shim=None, tmpdir=False, protocol=True, ids=(1000, 1000)):
     """Execute one op list; returns dict(execution=[records], problems=[...],
     emu=EmuRun|None, script=lines)."""
     d = core.mkscratch("rt")
     try:
-        lines, recs, table, dies = compose(ops)
+        lines, recs, table, dies = compose(ops, protocol=protocol)
+        pid_, tid_ = ids
+        if ids != (1000, 1000):
+            # large pid / tid (pid_max may be 4194304): 7 digits in the metadata and in the paths
+            lines = [ln.replace("proc_init 1 node0 1000", "proc_init 1 node0 %d" % pid_)
+                       .replace("thread_init 1000", "thread_init %d" % tid_) for ln in lines]
         sp = os.path.join(d, "script")
         lp = os.path.join(d, "log")
         open(sp, "w").write("\n".join(lines) + "\n")
@@ -126,7 +132,7 @@ def run_script(drv, bdir, ops, want_emu, keep=None, shim=None, tmpdir=False):
         if shim:
             env.update({"LD_PRELOAD": shim, "VERIF_SHORTWRITE": "4096"})
         rc, out, err = core.run([drv, sp, lp], timeout=120, env=env, cwd=d)
-        execution, problems, aborted = interpret(lp, recs, table, td, 1000, rc, err)
+        execution, problems, aborted = interpret(lp, recs, table, td, tid_, rc, err, pid=pid_)
         emurun = None
         if want_emu and not aborted and rc == 0:
             emurun = emu.ovniemu(bdir, td, ("-l",), timeout=120)
@@ -170,7 +176,7 @@ def run_mt(drv, bdir, ops_list, want_emu, tmpdir):
         shutil.rmtree(d, ignore_errors=True)
 
 
-def interpret(lp, recs, table, td, tid, rc, err):
+def interpret(lp, recs, table, td, tid, rc, err, pid=1000):
     """driver log + stream on disk -> (execution records for RtStreamTrace, problems, aborted)"""
     if True:
         log = [json.loads(l) for l in open(lp)] if os.path.exists(lp) else []
@@ -211,7 +217,7 @@ def interpret(lp, recs, table, td, tid, rc, err):
         elif rc not in (0, 3):
             problems.append("driver exit status %s: %s" % (rc, err.decode("latin1")[-300:]))
         if not aborted and rc == 0:
-            sdir = obs.stream_dir(td, "node0", 1000, tid)
+            sdir = obs.stream_dir(td, "node0", pid, tid)
             try:
                 meta, data = obs.read_stream(sdir)
             except Exception as ex:  # noqa
@@ -252,7 +258,7 @@ def interpret(lp, recs, table, td, tid, rc, err):
             if meta is not None:
                 ov = meta.get("ovni", {})
                 for key in ("lib", "part", "tid", "pid", "loom", "app_id", "require", "finished", "loom_cpus"):
-                    if key == "loom_cpus" and tid != 1000:
+                    if key == "loom_cpus" and tid not in (1000, 4194301):
                         continue        # CPUs are registered by one thread of the loom
                     if key not in ov:
                         problems.append("metadata lacks ovni.%s" % key)
@@ -260,6 +266,8 @@ def interpret(lp, recs, table, td, tid, rc, err):
                     problems.append("metadata version %r" % meta.get("version"))
                 if ov.get("tid") != tid:
                     problems.append("metadata of thread %d names tid %r" % (tid, ov.get("tid")))
+                if ov.get("pid") != pid:
+                    problems.append("metadata of process %d names pid %r" % (pid, ov.get("pid")))
         return execution, problems, aborted
 
 
@@ -392,9 +400,18 @@ def main(pid, tier):
     win, rw = scripts_from_window(tier, rng)
     walks, rg = scripts_from_walks(120 if tier == "quick" else 2000, rng)
     extra = extra_scripts()
+    # the other end of the buffer: every sequence of up to three small events (payload 0, 2, 12, 16 bytes)
+    # before the first flush, then one more event (C01: without the execute event in front, so the first
+    # flush finds 12..84 bytes)
+    small = []
+    for n in (1, 2, 3):
+        for pays in itertools.product((0, 2, 12, 16), repeat=n):
+            small.append([{"op": "emit", "pay": p_, "kind": "u"} for p_ in pays] + [{"op": "flush"}]
+                         + [{"op": "emit", "pay": 8, "kind": "u"}, {"op": "flush"}])
+    nsmall = len(small)
     scripts = extra + win + walks
     ck.notes["scripts"] = {"window_transitions": len(win), "random_walks": len(walks),
-                           "refusal_boundary": len(extra)}
+                           "refusal_boundary": len(extra), "small_first_flush": nsmall}
     want_emu = (pid == "C02")
 
     # every third script runs under truthful short writes (write() transfers ~40% of large requests):
@@ -403,10 +420,18 @@ def main(pid, tier):
 
     def one(x):
         k, ops = x
-        return run_script(drv, bdir, ops, want_emu, shim=shim if k % 3 == 1 else None, tmpdir=(k % 3 == 2 or k % 6 == 1))
+        # C01 speaks of any events: a fifth of its scripts does not start with the execute event
+        # (so the first flush can find very few bytes in the buffer); every seventh script uses a
+        # 7-digit pid and tid
+        return run_script(drv, bdir, ops, want_emu, shim=shim if k % 3 == 1 else None,
+                          tmpdir=(k % 3 == 2 or k % 6 == 1), protocol=(pid != "C01" or k % 5 != 4),
+                          ids=(1048579, 4194301) if k % 7 == 3 else (1000, 1000))
 
     ck.phase('generate')
     results = core.pmap(one, list(enumerate(scripts)), workers=core.NCPU)
+    results += core.pmap(lambda ops: run_script(drv, bdir, ops, want_emu, protocol=(pid != "C01")), small,
+                         workers=core.NCPU)
+    scripts = scripts + small
     ck.notes["scripts"]["under_short_writes"] = len([k for k in range(len(scripts)) if k % 3 == 1])
     ck.notes["scripts"]["relocated_from_tmpdir"] = len([k for k in range(len(scripts)) if k % 3 == 2 or k % 6 == 1])
     # multi-threaded protocol-conformant programs: 3 threads of one process, each running one of the
